@@ -488,9 +488,15 @@ def run(ctx: Ctx):
     # F: constructor calls of a generated dataclass vs Model/CallAssign.v (arguments in text order)
     from .. import callassign as ca
     ca.check_part(ctx, 300 if not ctx.thorough else 4000, "C11")
+    # G: lists / tuples / dict displays / constructor calls nested in each other at any depth vs Model/Nest.v
+    from .. import nestassign as na
+    na.check_part(ctx, 400 if not ctx.thorough else 5000, "C11", unm_choices=(0, 0, 0, 0.2))
 
 
 def replay(ctx: Ctx, data):
+    if isinstance(data.get("case"), dict) and data["case"].get("kind") == "nest":
+        from .. import nestassign as na
+        return na.replay_case(data["case"])
     if isinstance(data.get("case"), dict) and data["case"].get("kind") == "call":
         from .. import callassign as ca
         return ca.replay_case(data["case"])
